@@ -136,13 +136,19 @@ def rule_bind(ctx, classes=SKETCH_CLASSES):
 # ---------------------------------------------------------------------------
 
 def rule_attr_type(ctx, classes=SKETCH_CLASSES, only=None):
-    """NumPy scalar constructor of a bound attribute is at least as wide as the kernel parameter it feeds."""
+    """The NumPy scalar constructor of a bound attribute holds every value of the narrowest kernel parameter it feeds
+    (that parameter's type is the attribute's intended domain): a narrower constructor silently truncates inputs
+    (e.g. seeds >= 2**32) before any kernel sees them."""
     F = facts_of(ctx)
     for cls in F.classes(classes):
         defs = {}
         for d in F.attr_defs(cls):
             defs.setdefault(d.attr, []).append(d)
-        for mname, meth in cls.methods.items():
+        consumers = {}
+        for mname in set(cls.methods) | {m for c in cls.mro() for m in c.methods}:
+            meth = cls.resolve(mname)
+            if meth is None:
+                continue
             for k in F.calls_from(meth):
                 if not k.callee.is_kernel:
                     continue
@@ -153,15 +159,18 @@ def rule_attr_type(ctx, classes=SKETCH_CLASSES, only=None):
                     pty = k.callee.ptypes.get(p)
                     if pty is None or pty.is_array or pty.kind not in ("uint", "int"):
                         continue
-                    for d in defs.get(sa, []):
-                        sc = scalar_ctor(d.value)
-                        if not sc:
-                            continue
-                        aty = sc[0]
-                        okk = aty.kind == pty.kind and aty.bits >= pty.bits
-                        ctx.ob("attr-type", F.ctor(cls), d.stmt, "self.%s -> %s(%s: %r)" % (sa, k.callee.name, p, pty),
-                               "constructor type %r holds every value of parameter type %r" % (aty, pty), okk,
-                               "" if okk else "self.%s is built with %r but feeds a %r parameter: values are truncated before the kernel sees them" % (sa, aty, pty))
+                    consumers.setdefault(sa, []).append((pty, k.callee.name, p))
+        for sa, cons in sorted(consumers.items()):
+            need = min(cons, key=lambda c: c[0].bits)
+            for d in defs.get(sa, []):
+                sc = scalar_ctor(d.value)
+                if not sc:
+                    continue
+                aty = sc[0]
+                okk = aty.kind == need[0].kind and aty.bits >= need[0].bits
+                ctx.ob("attr-type", F.ctor(cls), d.stmt, "%s: self.%s = %s(...) -> %s(%s: %r)" % (cls.name, sa, aty, need[1], need[2], need[0]),
+                       "constructor type %r holds every value of the parameter type %r it feeds" % (aty, need[0]), okk,
+                       "" if okk else "self.%s is built with %r but feeds a %r parameter: larger inputs are truncated before the kernel sees them" % (sa, aty, need[0]))
 
 
 # ---------------------------------------------------------------------------
